@@ -202,11 +202,12 @@ pub fn worst_margin(cs: &[ConeT], v: &[f64], dual: bool) -> (f64, usize) {
             continue;
         }
         let (m, sc) = margin(c, &v[r], dual);
-        // a second-order / exponential / power / PSD block below 1e-150 is underflow noise to the implementation's
-        // own quadratic forms (its squares are not representable): "inside the cone up to rounding" has no relative
+        // a second-order / exponential / power / PSD block below 1e-75 is underflow noise to the implementation's
+        // own forms (fourth powers of its components - the discriminant of the second-order step length - are not
+        // representable): "inside the cone up to rounding" has no relative
         // meaning there, and the block is not judged (same rule as C07; reached only by runs that were never allowed
         // to stop).  Nonnegative blocks are judged at every magnitude.
-        if sc < 1e-150 && !matches!(c, NonnegativeConeT(_) | ZeroConeT(_)) {
+        if sc < 1e-75 && !matches!(c, NonnegativeConeT(_) | ZeroConeT(_)) {
             continue;
         }
         let ratio = m / sc;
